@@ -74,11 +74,42 @@ Theorem C12_names_match_standard : forall n o, is_marker n = false ->
 Proof. exact names_match_standard. Qed.
 Print Assumptions C12_names_match_standard.
 
-(* outside the table (outside the property): the implementation's behaviour is a KeyError *)
+(* a first byte outside the table is a KeyError (the one-operation instance of
+   C12_illformed_rejected below, which covers any position and nesting depth) *)
 Theorem C12_unknown_opcode : forall c opc rest,
   spec_row opc = None -> parse_expr c (opc :: rest) = Err (EPy "KeyError").
 Proof. exact unknown_opcode_keyerror. Qed.
 Print Assumptions C12_unknown_opcode.
+
+(* THE OTHER HALF OF "exactly": a byte string with a byte that is not an operation in
+   opcode position (BOpcode), or with an entry-value / implicit-value block announced
+   longer than what is left of the enclosing expression (BTrunc), behind any well-formed
+   operations and at any nesting depth (BInner), is refused -- it is never reported as
+   some other sequence of operations.  [bad_err]: KeyError resp. ELFParseError. *)
+Theorem C12_illformed_rejected : forall c b,
+  cfg_ok c = true -> wf_bad c b = true ->
+  parse_expr c (encode_bad c b) = Err (bad_err (why_of b)).
+Proof. exact illformed_rejected. Qed.
+Print Assumptions C12_illformed_rejected.
+
+(* its simplest instance, the truncation clause (cf. C16_block_truncated) *)
+Theorem C12_nested_truncated : forall c opc n lenc size body,
+  cfg_ok c = true -> spec_row opc = Some (n, [NESTED]) ->
+  uleb_ok lenc size = true -> zlen body < size ->
+  parse_expr c (opc :: lenc ++ body) = Err EParse.
+Proof. exact nested_truncated. Qed.
+Print Assumptions C12_nested_truncated.
+
+(* parse_expr is a function of (configuration, bytes) alone: in any sequence of calls
+   the i-th answer is the expected parse of the i-th expression, whatever was parsed
+   (and whatever the caller did with the results) before.  The harness observes the
+   implementation under exactly this protocol (kind 'hist'). *)
+Theorem C12_parse_history : forall c calls,
+  cfg_ok c = true -> forallb (wf_ops c) calls = true ->
+  map (fun ops => parse_expr c (encode_ops c ops)) calls =
+  map (fun ops => Ok (annotate c ops)) calls.
+Proof. exact parse_history. Qed.
+Print Assumptions C12_parse_history.
 
 (* ---------- non-vacuity: the hypotheses hold for concrete non-trivial inputs ---------- *)
 Definition ex_cfg : cfg := mkCfg false 8 64.     (* big endian, 8-byte addresses, 64-bit DWARF *)
@@ -109,4 +140,17 @@ Definition ex_canon : list sop :=
     SOp 0xa2 [VLeb [0x80; 0x01] 128] ].
 Example C12_ex_canon : wf_ops ex_cfg ex_canon = true /\ canon_ops ex_cfg ex_canon = true /\
                        reencode ex_cfg (annotate ex_cfg ex_canon) = encode_ops ex_cfg ex_canon.
+Proof. vm_compute. repeat split; reflexivity. Qed.
+
+(* ill-formed inputs: a3 06 a3 04 a3 03 50 96 (depth 3, innermost block one byte short) and
+   nop ; entry_value( lit0 ; 0xaa ...) *)
+Definition ex_bad_trunc : bexpr :=
+  BInner [] 0xa3 [6] (BInner [] 0xa3 [4] (BTrunc [] 0xa3 [3] 3 [0x50; 0x96]) []) [].
+Definition ex_bad_opcode : bexpr :=
+  BInner [SOp 0x96 []] 0xf3 [0x83; 0x00] (BOpcode [SOp 0x30 []] 0xaa [0x30]) [0x96].
+Example C12_ex_bad :
+  wf_bad ex_cfg ex_bad_trunc = true /\ encode_bad ex_cfg ex_bad_trunc = [0xa3; 6; 0xa3; 4; 0xa3; 3; 0x50; 0x96] /\
+  parse_expr ex_cfg (encode_bad ex_cfg ex_bad_trunc) = Err EParse /\
+  wf_bad ex_cfg ex_bad_opcode = true /\
+  parse_expr ex_cfg (encode_bad ex_cfg ex_bad_opcode) = Err (EPy "KeyError").
 Proof. vm_compute. repeat split; reflexivity. Qed.
